@@ -50,16 +50,19 @@ type exCall struct {
 }
 
 type exRun struct {
-	c       *core.Ctx
-	e       *bigbuff.Exclusive
-	keys    int
-	active  []atomic.Int32
-	overlap atomic.Int64
-	mu      sync.Mutex
-	execs   []*exExec
-	calls   []*exCall
-	probs   []anomaly
-	rlCtx   context.Context
+	c           *core.Ctx
+	e           *bigbuff.Exclusive
+	keys        int
+	active      []atomic.Int32
+	inner       []atomic.Int32 // user-level function bodies (they may outlive a wrapper that returns early)
+	workStart   []atomic.Int64 // latest stamp at which a (wrapped) work function of the key was entered
+	overlap     atomic.Int64
+	rlCancelled atomic.Bool
+	mu          sync.Mutex
+	execs       []*exExec
+	calls       []*exCall
+	probs       []anomaly
+	rlCtx       context.Context
 }
 
 func (r *exRun) problem(cat, key, format string, args ...any) {
@@ -78,6 +81,22 @@ func (r *exRun) enter(key int, who string) {
 }
 
 func (r *exRun) leave(key int) { r.active[key].Add(-1) }
+
+func (r *exRun) enterInner(key int, who string) {
+	if r.inner == nil {
+		return
+	}
+	if n := r.inner[key].Add(1); n > 1 {
+		r.overlap.Add(1)
+		r.problem("mutex", "overlap", "%d user work functions of key %d are running at once (entering: %s)", n, key, who)
+	}
+}
+
+func (r *exRun) leaveInner(key int) {
+	if r.inner != nil {
+		r.inner[key].Add(-1)
+	}
+}
 
 func (r *exRun) newExec(call *exCall) *exExec {
 	if call.runs.Add(1) > 1 {
@@ -103,6 +122,8 @@ func (r *exRun) valueFn(call *exCall, body func(), counted bool) func() (interfa
 			r.enter(call.key, call.style)
 			defer r.leave(call.key)
 		}
+		r.enterInner(call.key, call.style)
+		defer r.leaveInner(call.key)
 		e := r.newExec(call)
 		if body != nil {
 			body()
@@ -114,6 +135,8 @@ func (r *exRun) valueFn(call *exCall, body func(), counted bool) func() (interfa
 
 func (r *exRun) workFn(call *exCall, body, tail func()) bigbuff.WorkFunc {
 	return func(resolve func(interface{}, error)) {
+		r.enterInner(call.key, call.style)
+		defer r.leaveInner(call.key)
 		e := r.newExec(call)
 		if body != nil {
 			body()
@@ -148,6 +171,17 @@ func (r *exRun) monitor(call *exCall) bigbuff.ExclusiveOption {
 		return func(resolve func(interface{}, error)) {
 			r.enter(call.key, call.style)
 			defer r.leave(call.key)
+			if r.workStart != nil {
+				// an execution of the key's work began here, even if an inner wrapper (the rate limiter with a
+				// cancelled context) resolves without ever invoking the user's function
+				st := core.Now()
+				for {
+					cur := r.workStart[call.key].Load()
+					if st <= cur || r.workStart[call.key].CompareAndSwap(cur, st) {
+						break
+					}
+				}
+			}
 			inner(resolve)
 		}
 	})
@@ -247,7 +281,16 @@ var exStyles = []string{"Call", "CallAfter", "CallAsync", "CallAfterAsync", "Sta
 var exWorks = []string{"value", "early", "early", "never", "twice", "ratelimit", "async", "async"}
 
 func runExclusive(c *core.Ctx, keys, callers, perCaller int) *exRun {
-	r := &exRun{c: c, e: new(bigbuff.Exclusive), keys: keys, active: make([]atomic.Int32, keys), rlCtx: context.Background()}
+	r := &exRun{c: c, e: new(bigbuff.Exclusive), keys: keys, active: make([]atomic.Int32, keys), inner: make([]atomic.Int32, keys), workStart: make([]atomic.Int64, keys), rlCtx: context.Background()}
+	if c.Rng.IntN(2) == 0 {
+		// the rate limiter's context is cancelled somewhere in the middle of the run (other call styles go on)
+		ctx, cancel := context.WithCancel(context.Background())
+		r.rlCtx = ctx
+		d := time.Duration(c.Rng.IntN(1500)) * time.Microsecond
+		t := time.AfterFunc(d, func() { r.rlCancelled.Store(true); cancel() })
+		defer t.Stop()
+		defer cancel()
+	}
 	var wg sync.WaitGroup
 	for cl := 0; cl < callers; cl++ {
 		seed := c.Rng.Uint64()
@@ -318,7 +361,11 @@ func (r *exRun) checkAnswers() {
 		}
 		res, _ := cl.res.(*exRes)
 		if res == nil {
-			// legal only as the library's own "resolve not called" outcome
+			// legal only as the library's own "resolve not called" outcome, or the rate limiter's context error once
+			// that context was cancelled
+			if cl.err == context.Canceled && r.rlCancelled.Load() {
+				continue
+			}
 			if cl.err == nil || !strings.Contains(cl.err.Error(), "resolve not called") {
 				r.problem("answer", "foreign-outcome", "call %d received (%v, %v), which no execution produced", cl.id, cl.res, cl.err)
 			}
@@ -350,7 +397,7 @@ func (r *exRun) checkAnswers() {
 		}
 		// the supplier itself (when it has an outcome and its work resolves) is answered by this execution
 		if !sup.start && sup.outcomes == 1 && (sup.work == "value" || sup.work == "early" || sup.work == "twice" || sup.work == "ratelimit") {
-			if res, _ := sup.res.(*exRes); res != e.res {
+			if res, _ := sup.res.(*exRes); res != e.res && !(sup.res == nil && sup.err == context.Canceled && r.rlCancelled.Load()) {
 				r.problem("answer", "supplier-not-answered", "call %d supplied the function of execution %d but was answered by something else", sup.id, e.id)
 			}
 		}
@@ -368,6 +415,11 @@ func (r *exRun) checkAnswers() {
 	for _, e := range execs {
 		if e.start > lastStart[e.key] {
 			lastStart[e.key] = e.start
+		}
+	}
+	for k := range r.workStart {
+		if st := r.workStart[k].Load(); st > lastStart[k] {
+			lastStart[k] = st
 		}
 	}
 	for _, cl := range calls {
